@@ -446,10 +446,28 @@ def rule_E(run, prog, cls):
                            "time axis", loc=f.loc())
     g = cls.methods["at"]
     st = [norm(s) for s in ast.walk(g.node) if isinstance(s, ast.stmt)]
-    ok = "ti, dt = self.time.locate(time)" in st and \
-        "return SuperOperator(data=self.data[ti, :, :, :, :])" in st
+    rets = [n for n in walk_no_nested(g.node) if isinstance(n, ast.Return) and isinstance(n.value, ast.Call)
+            and call_name(n.value) == "SuperOperator"]
+    srcs = [k.value for r_ in rets for k in r_.value.keywords if k.arg == "data"] + [r_.value.args[0] for r_ in rets if r_.value.args]
+
+    def _core(e):
+        # strip an owning copy: X.copy(), numpy.array(X), numpy.copy(X)
+        if isinstance(e, ast.Call) and isinstance(e.func, ast.Attribute) and e.func.attr == "copy" and not e.args:
+            return e.func.value, True
+        if isinstance(e, ast.Call) and call_name(e) in ("array", "copy") and e.args:
+            return e.args[0], True
+        return e, False
+    cores = [_core(e) for e in srcs]
+    ok = "ti, dt = self.time.locate(time)" in st and any(norm(c_) == "self.data[ti, :, :, :, :]" for c_, _ in cores)
     run.obligation(rid, "EvolutionSuperOperator.at", ok, key="located-slice",
                    message="at(time) must return the slice at the located index", loc=g.loc())
+    # the object handed out is basis managed and transformed in place: it must own its data, a view of the stored
+    # array would carry every later transformation of the returned object into the stored values
+    shared = [norm(e) for (c_, owned), e in zip(cores, srcs) if not owned and "self.data" in norm(c_)]
+    run.obligation(rid, "EvolutionSuperOperator.at", bool(srcs) and not shared, key="owns-its-data",
+                   message="at() builds the returned SuperOperator on %s, a view of the stored array: the returned object "
+                           "is transformed in place when a basis context opens or closes, and the stored time slice with it"
+                           % shared, loc=g.loc(), sample={"data_arguments": [norm(e) for e in srcs]})
     # apply() dispatches on the kind of `time`: every kind the documentation lists must reach its branch
     from .. import apiexist
     apiexist.check_isinstance_types(run, rid, prog, [f, g], "applying the superoperator")
